@@ -259,6 +259,12 @@ class DescGen:
                 "recipients": [
                     {
                         "protected": {} if self.s.chance(0.5) else "",
+                        "unprotected": {"suit-cose-algorithm-id": "cose-alg-direct", "suit-cose-key-id": 1000 + r_},
+                        "ciphertext": None,
+                    } for r_ in range(self.s.choice([0, 0, 0, 1, 10]))
+                ] + [
+                    {
+                        "protected": {} if self.s.chance(0.5) else "",
                         "unprotected": {"suit-cose-algorithm-id": self.s.choice(
                             ["cose-alg-direct", "cose-alg-a128kw", "cose-alg-a256kw"]),
                             "suit-cose-key-id": kid if self.s.chance(0.6) else self.nonuint_hex()},
@@ -339,7 +345,8 @@ class DescGen:
             digest["suit-digest-bytes"] = ""
         auth = {"SuitDigest": digest}
         if "authblock" in self.f and self.s.chance(0.3):
-            for i in range(self.s.randint(1, 2)):
+            # sometimes more than nine blocks: parse numbers them 1..N, and "10" sorts before "2" as text
+            for i in range(self.s.choice([1, 2, 2, 11, 12])):
                 auth[f"SuitAuthentication{i}"] = {
                     "CoseSign1Tagged": {
                         "protected": {"suit-cose-algorithm-id": self.s.choice(
